@@ -68,6 +68,7 @@ type global struct {
 	offFormula   int
 	maskedChmod  int
 	maskedRmAll  int
+	rmAllViaRm   int
 	outcomes     map[string]int
 	viols        map[string]*violAgg
 	violSeq      map[string]int
@@ -101,6 +102,7 @@ func (g *global) merge(c chunk, r reply) {
 	g.offFormula += r.KernelOffFormula
 	g.maskedChmod += r.MaskedChmodSetgid
 	g.maskedRmAll += r.MaskedRemoveAll
+	g.rmAllViaRm += r.RemoveAllViaRemove
 
 	for k, n := range r.Outcomes {
 		g.outcomes[k] += n
@@ -455,10 +457,11 @@ func main() {
 			"blocks_complete": len(done), "blocks_partial": append([]string{}, partial...), "blocks": g.stats,
 			"builds": g.builds, "kernel_refused": g.refused, "kernel_allowed": g.allowed,
 			"skipped_kernel_policy_protected_hardlinks": g.skipped, "skipped_kernel_policy_other": g.skippedOther,
-			"skipped_go_removeall_parent_read_artefact":  g.artefact,
-			"kernel_created_object_off_formula":          g.offFormula,
-			"masked_chmod_setgid_cleared_by_kernel":      g.maskedChmod,
-			"trees_not_compared_after_refused_removeall": g.maskedRmAll,
+			"skipped_go_removeall_parent_read_artefact":                      g.artefact,
+			"kernel_created_object_off_formula":                              g.offFormula,
+			"masked_chmod_setgid_cleared_by_kernel":                          g.maskedChmod,
+			"trees_not_compared_after_refused_removeall":                     g.maskedRmAll,
+			"removeall_judged_by_kernel_remove_after_go_parent_read_refusal": g.rmAllViaRm,
 			"instances_note":         fmt.Sprintf("instance counts printed by the known-findings reporter are capped at %d per signature; exact counts: violation_instances here and instances_exact in each replay file", reportCap),
 			"violation_instances":    total,
 			"known_findings_matched": append([]string{}, rep.KnownMatched()...),
